@@ -61,8 +61,28 @@ Definition node_inlines (n : node) : list inline :=
 Definition first_is_leaf (kids : list tree) : bool :=
   match kids with T _ (NLeaf _) _ :: _ => true | _ => false end.
 
+(* model/graph.rs `GraphInline::relative_to(parent)`: the inline as it is written in a note of the
+   directory [parent] - a link to a note holds the key of the note and is written relative to the
+   linking note like a block reference (`Key::name(url).to_rel_link_url(parent)`), through every
+   nesting (emphasis, link texts, image texts) *)
+Fixpoint rel_inline (parent : string) (i : inline) : inline :=
+  match i with
+  | Emph l => Emph (map (rel_inline parent) l)
+  | Strong l => Strong (map (rel_inline parent) l)
+  | Strike l => Strike (map (rel_inline parent) l)
+  | Link url title lt l =>
+      Link (if is_ref_url url then to_rel_link_url (key_name url) parent else url) title lt
+           (map (rel_inline parent) l)
+  | Image url title l => Image url title (map (rel_inline parent) l)
+  | _ => i
+  end.
+Definition rel_inlines (parent : string) (l : list inline) : list inline := map (rel_inline parent) l.
+
 Section Projector.
   Variable parent : string.
+
+  (* projector.rs `Projector::relative`: every inline list that leaves the tree *)
+  Definition out_inlines (n : node) : list inline := rel_inlines parent (node_inlines n).
 
   Fixpoint project_node (hl : nat) (t : tree) {struct t} : list gblock :=
     match t with
@@ -71,24 +91,24 @@ Section Projector.
         | NDocument _ => flat_map (project_node hl) kids
         (* projector.rs:38-46: `GraphBlock::Header(self.header_level + 1, ..)`; the counter and
            `Level` (model.rs:129) are both usize, so the level is exactly the nesting + 1 *)
-        | NSection l => GHeader (hl + 1) l :: flat_map (project_node (hl + 1)) kids
+        | NSection l => GHeader (hl + 1) (rel_inlines parent l) :: flat_map (project_node (hl + 1)) kids
         (* a quote or list whose projection has no content is skipped *)
         | NQuote => match flat_map (project_node 0) kids with [] => [] | q => [GQuote q] end
         | NBList =>
             match kids with
             | [] => []
             | _ => [GBList (map (fun c => match c with T _ cn ck =>
-                        (if first_is_leaf ck then GPara (node_inlines cn) else GPlain (node_inlines cn))
+                        (if first_is_leaf ck then GPara (out_inlines cn) else GPlain (out_inlines cn))
                           :: flat_map (project_node 0) ck end) kids)]
             end
         | NOList =>
             match kids with
             | [] => []
             | _ => [GOList (map (fun c => match c with T _ cn ck =>
-                        (if first_is_leaf ck then GPara (node_inlines cn) else GPlain (node_inlines cn))
+                        (if first_is_leaf ck then GPara (out_inlines cn) else GPlain (out_inlines cn))
                           :: flat_map (project_node 0) ck end) kids)]
             end
-        | NLeaf l => [GPara l]
+        | NLeaf l => [GPara (rel_inlines parent l)]
         | NRaw lang content => [GCode lang content]
         | NRule => [GRule]
         | NRef key text rt =>
@@ -98,7 +118,8 @@ Section Projector.
                        | WikiLinkPiped => [Str text]
                        end in
             [GPara [Link (to_rel_link_url key parent) "" rt ils]]
-        | NTable h al rows => [GTable h al rows]
+        | NTable h al rows =>
+            [GTable (map (rel_inlines parent) h) al (map (map (rel_inlines parent)) rows)]
         end
     end.
 
